@@ -709,3 +709,135 @@ def check_index_build(ctx):
                    f'registered id: {txt(call)[:60]}',
                    bool(call.args) and txt(call.args[0]) == pos_var,
                    at=meth.where(call))
+
+
+# --------------------------------------------------------- INDEX-OWNER ---
+
+def check_index_owner(ctx):
+    """The index of a Browser is a function of its content: it is assigned in
+    exactly one place, the constructor, from `_build_index()` over the
+    content stored there.  Any other assignment of `.content` / `.index` of a
+    Browser (a sub-browser whose index is DERIVED from the parent's - stripped
+    and renumbered - instead of rebuilt) lets the two disagree: the generic
+    renumbering maps the ids inside the sets but not the values of the
+    'index' key, which are ids themselves."""
+    program = ctx.program
+    mod = program.module('valjean.eponine.browser')
+    program.consulted.add(mod.relpath)
+    n = 0
+    for func in mod.functions.values():
+        if func.cls is None or func.cls.name != 'Browser':
+            continue
+        for node in walk_local(func.node):
+            if not isinstance(node, ast.Assign):
+                continue
+            for tgt in node.targets:
+                if isinstance(tgt, ast.Attribute) and tgt.attr in (
+                        'index', 'content'):
+                    n += 1
+                    own = func.name == '__init__' and dotted(
+                        tgt.value) == 'self'
+                    built = tgt.attr != 'index' or (
+                        isinstance(node.value, ast.Call) and
+                        call_name(node.value) == '_build_index')
+                    if own and built:
+                        ctx.holds('INDEX-OWNER', func,
+                                  f'{func.name}: {txt(node)[:60]}',
+                                  at=func.where(node))
+                        continue
+                    # an index derived from another one can only be right
+                    # if the 'index' key - whose VALUES are ids - gets a
+                    # treatment of its own: look for it in the function and
+                    # in what it calls
+                    handles = False
+                    todo, seen = [func], set()
+                    while todo:
+                        cur = todo.pop()
+                        if cur.key in seen or len(seen) > 12:
+                            continue
+                        seen.add(cur.key)
+                        if any(isinstance(c, ast.Constant) and
+                               c.value == 'index'
+                               for c in ast.walk(cur.node)):
+                            handles = True
+                        for call in calls_in(cur.node):
+                            cands, how = program.resolve_call(cur, call)
+                            if how == 'by-unique-name' and call_name(
+                                    call) in effects.NOT_BY_NAME:
+                                continue
+                            for cand in cands[:2]:
+                                if cand.module is mod and cand.name not in (
+                                        '_build_index', '__init__'):
+                                    todo.append(cand)
+                    ctx.decide('INDEX-OWNER', func,
+                               f'{func.name}: {txt(node)[:60]}',
+                               None if handles else False,
+                               at=func.where(node),
+                               detail='content / index of a Browser set '
+                                      'outside the constructor, the index '
+                                      'not rebuilt from the content: the '
+                                      'derivation never treats the '
+                                      "'index' key, whose values are ids "
+                                      'themselves' if not handles else
+                                      'derived index: not decided')
+    ctx.floor('INDEX-OWNER', n, 2, 'assignments of content / index in '
+                                   'Browser')
+
+
+# ---------------------------------------------------------- DIRECT-PICK ---
+
+def check_direct_pick(ctx):
+    """select_by returns THE item that matches: it goes through the same
+    selection as filter_by.  A short cut that subscripts the content list
+    with a value supplied by the caller (`self.content[kwargs['index']]`)
+    inherits Python's negative indexing: index=-1 returns the last item,
+    whose 'index' is not -1, where the selection finds nothing and
+    NoItemBrowserError is documented."""
+    from . import verdict as V
+    program = ctx.program
+    klass = program.cls('valjean.eponine.browser:Browser')
+    meth = klass.methods.get('select_by')
+    if meth is None:
+        raise AnalysisError('Browser.select_by not found')
+    seeds = {p for p in meth.params if p not in ('self',)}
+    for extra in (meth.node.args.vararg, meth.node.args.kwarg):
+        if extra is not None:
+            seeds.add(extra.arg)
+    # values the CALLER chose: the parameters and what is read out of them
+    # (not the ids computed by the selection from the index)
+    user = set(seeds)
+    for node in walk_local(meth.node):
+        if isinstance(node, ast.Assign) and len(node.targets) == 1 and \
+                isinstance(node.targets[0], ast.Name) and isinstance(
+                    node.value, (ast.Subscript, ast.Name, ast.Call)) and \
+                isinstance(getattr(node.value, 'value', node.value),
+                           ast.Name) and getattr(
+                               node.value, 'value', node.value).id in seeds:
+            user.add(node.targets[0].id)
+    n = 0
+    for node in walk_local(meth.node):
+        if isinstance(node, ast.Subscript) and dotted(node.value) in (
+                'self.content', 'self._content') and isinstance(
+                    node.ctx, ast.Load) and not isinstance(
+                        node.slice, ast.Constant):
+            n += 1
+            from_user = V.mentions(node.slice, user)
+            conds = V.path_condition(meth.node, node)
+            guarded = any(
+                isinstance(c, ast.Compare) and any(
+                    isinstance(o, (ast.GtE, ast.LtE, ast.Lt, ast.Gt))
+                    for o in c.ops) and any(
+                        isinstance(k, ast.Constant) and k.value == 0
+                        for k in [c.left] + c.comparators)
+                for t, _ in conds for c in ast.walk(t))
+            ctx.decide('DIRECT-PICK', meth,
+                       f'select_by: {txt(node)[:50]} picked directly',
+                       True if not from_user else None if guarded else False,
+                       at=meth.where(node),
+                       detail=None if not from_user or guarded else
+                       'a negative value supplied by the caller wraps '
+                       'around: an item is returned although none matches')
+    if not n:
+        ctx.holds('DIRECT-PICK', meth, 'select_by never subscripts the '
+                  'content with a caller-supplied value', at=meth.where(),
+                  nontrivial=False)
